@@ -119,6 +119,7 @@ func Main(a Adapter) {
 				wmu.Lock()
 				w.Write(b)
 				w.WriteByte('\n')
+				w.Flush() // a crash of the code under test in a background goroutine must not lose earlier results
 				wmu.Unlock()
 			}
 		}(i)
